@@ -380,10 +380,34 @@ theorem Life.of_allocating {s s' : St} (h : Life s) (hr : Running s)
   · rw [hinfo]; intro h; cases h
   · rw [h4, h5]; exact h.ver
 
-theorem handleMetadataData_life (m : M) (k i len : Nat) (g : Bool) (h : Life m.1) (hr : Running m.1) :
-    Life (handleMetadataData m k i len g).1 := by
+/-- The adopted metadata either stops the torrent (`StopAfterMetadata`) or starts the allocator. -/
+theorem hmdStart_life (m : M) {s0 : St} (h : Life s0) (hr : Running s0)
+    (h1 : m.1.errC = s0.errC) (h2 : m.1.stopAnn = s0.stopAnn) (h4 : m.1.verifier = s0.verifier)
+    (h5 : m.1.loaded = s0.loaded) (h6 : m.1.leaked = s0.leaked)
+    (h10 : m.1.fileExists = s0.fileExists) (h11 : m.1.cfg = s0.cfg) (hinfo : m.1.info = true) :
+    Life (hmdStart m).1 := by
+  unfold hmdStart
+  split
+  · simp only [onSt_fst]
+    exact stop_life' _ _ (hr.congr h1 h2) (by rw [h6]; exact h.leaked) (fun hi => by rw [hinfo] at hi; cases hi)
+  · simp only [onSt_fst]
+    split
+    · next ha => apply Life.of_allocating h hr <;> first | (simp; assumption) | (simpa using ha)
+    · apply Life.of_allocating h hr <;> first | assumption | rfl
+
+theorem hmdAdopt_life (m : M) (h : Life m.1) (hr : Running m.1) : Life (hmdAdopt m).1 := by
   have hk := h.leaked
   have hni := h.ni
+  unfold hmdAdopt
+  dsimp only
+  repeat' split
+  all_goals first
+    | (simp only [onSt_fst]
+       exact stop_life' _ _ hr hk (fun hi => ⟨(hni hi).2.2.2.1, (hni hi).2.2.2.2⟩))
+    | exact hmdStart_life _ h hr rfl rfl rfl rfl rfl rfl rfl rfl
+
+theorem handleMetadataData_life (m : M) (k i len : Nat) (g : Bool) (h : Life m.1) (hr : Running m.1) :
+    Life (handleMetadataData m k i len g).1 := by
   -- closing the peer and flagging `mayStartI`
   have hclose : ∀ s : St, RFrame m.1 s → Life (onSt (closePeerM (s, m.2) k) fun s => { s with mayStartI := !s.info }).1 := by
     intro s f
@@ -391,25 +415,20 @@ theorem handleMetadataData_life (m : M) (k i len : Nat) (g : Bool) (h : Life m.1
     have hs := h.congrR hr f
     have hrs : Running s := hr.congr f.h1 f.h2
     exact (closePeer_life s k hs hrs).congr (by lframe)
-  unfold handleMetadataData
-  dsimp only
+  rw [handleMetadataData_eq]
   split
   · exact h
+  unfold hmdBlock
+  dsimp only
+  split
+  · exact hclose m.1 (by lframe)
   · split
     · exact hclose m.1 (by lframe)
     · split
-      · exact hclose m.1 (by lframe)
+      · simp only [onSt_fst]; exact h.congrR hr (by lframe)
       · split
-        · simp only [onSt_fst]; exact h.congrR hr (by lframe)
-        · split
-          · exact hclose _ (by lframe)
-          · split
-            · simp only [onSt_fst]
-              exact stop_life' _ _ hr hk (fun hi => ⟨(hni hi).2.2.2.1, (hni hi).2.2.2.2⟩)
-            · simp only [onSt_fst]
-              split
-              · next ha => apply Life.of_allocating h hr <;> first | (simp; done) | (simpa using ha)
-              · apply Life.of_allocating h hr <;> (simp; done)
+        · exact hclose _ (by lframe)
+        · exact hmdAdopt_life _ (h.congrR hr (by lframe)) (hr.congr rfl rfl)
 
 /-! ### loaded and running: everything after a successful allocation -/
 
